@@ -903,7 +903,17 @@ class Interp:
             if len(dims) == 1 and dims[0][0] == "tuple":
                 dims = list(dims[0][1])
             return self.reshape(recv, dims)
-        if name in ("astype", "copy", "squeeze", "flatten", "ravel", "block_until_ready", "item", "tolist"):
+        if name == "astype":
+            # a cast to a statically named integer dtype inside a Problem (state vectors are integer
+            # vectors) is value-transparent; any other cast - to a float width, or to a dtype taken
+            # from another runtime value (x.astype(v.dtype)) - stays visible in the term
+            d = args[0] if args else kw.get("dtype", NONE)
+            static_int = (d[0] == "mod" and d[1].split(".")[-1] in ("int32", "int64", "int16", "int8", "uint8", "uint32", "int_")) or d == ("builtin", "int")
+            in_problem = self.cls is not None and any(k.name == "Problem" for k in self.ct.mro(self.cls))
+            if static_int and in_problem:
+                return recv
+            return ("app", "astype", (recv, d))
+        if name in ("copy", "squeeze", "flatten", "ravel", "block_until_ready", "item", "tolist"):
             return recv
         if name == "clip":
             lo = args[0] if args else kw.get("min", kw.get("a_min", NONE))
